@@ -18,7 +18,7 @@ import (
 
 func init() {
 	register(&Prop{ID: "C13", Gen: c13Gen, Oracle: c13Oracle,
-		Rule: "fork enumeration over (|A|, common prefix p, |B|, tile height, client position a, presented head b <,=,> a, tile source, cold/warm cache, long-lived / restarted / second client on the shared configuration, fresh client shown B first), plus stale-head replays on one log, plus an exhaustive small-scope sweep (tile height, a, b, p) of an equivocating server splicing the other tree's hashes into its tiles entry by entry (all tiles / only the widest version of each partial tile), plus lost install races (a long-lived client, three heads A@a1, A@a2, B@b in flight under tile-read-last / random / fixed schedules; report content checked per callback), plus several different forked heads shown to one long-lived client one after the other and at the same time (every security failure of a lookup that read its own response must have handed that head to the callback); non-trivial = both heads lie beyond the common prefix or the head moves; distinct by scenario line"})
+		Rule: "fork enumeration over (|A|, common prefix p, |B|, tile height, client position a, presented head b <,=,> a, tile source, cold/warm cache, long-lived / restarted / second client on the shared configuration, fresh client shown B first), plus stale-head replays on one log, plus an exhaustive small-scope sweep (tile height, a, b, p) of an equivocating server splicing the other tree's hashes into its tiles entry by entry (all tiles / only the widest version of each partial tile), plus lost install races (a long-lived client, three heads A@a1, A@a2, B@b in flight under tile-read-last / random / fixed schedules; report content checked per callback), plus several different forked heads shown to one long-lived client one after the other and at the same time (every security failure of a lookup that read its own response must have handed that head to the callback), plus histories of one long-lived client whose shared configuration is moved by another party (second client / direct write) to a head it cannot merge (fork head, head ahead of its server, head signed by an unknown key), a failed flush, then 2-4 FURTHER advances of its own head with faults switched on and off in between (no stored head is overwritten unless it was verified to be contained in the head written; also emitted as client.trace lines), plus the fork enumeration with every served head in the forward-compatible encoding (additional text lines after the hash line); non-trivial = both heads lie beyond the common prefix or the head moves; distinct by scenario line"})
 }
 
 // c13StrictAfterSecurity: see the report — after a fork was reported through SecurityError a long-lived client whose
@@ -333,6 +333,7 @@ func c13Judge(g *Gen, c c13Case) {
 	clReport(g, c13CheckConcurrent(g, out), sc)
 	clReport(g, c13CheckSecurityPar(g, out), sc)
 	clReport(g, c13CheckSecurityFresh(g, out), sc)
+	clReport(g, c13CheckOverwrite(g, out), sc)
 }
 
 // c13CheckSecurityPar: the clause "whenever the failure is reported as a security error the security callback received
@@ -929,10 +930,33 @@ func c13Oracle(g *Gen, n int) {
 	c13Judge(g, c13Case{"client.run w=1:7:2:7 h=2 srv=A@2 new=0 look=0:A0 srv=B@7 new=0 look=0:B5 look=0:B5m", "regression/F6prime"})
 	// the recorded known finding (no rollback after a failed reconciliation), minimal form: must keep reproducing
 	c13Judge(g, c13Case{"client.run w=656:5:3:8 h=1 srv=A@3 new=1 look=1:A2 cfg=A@5 srv=B@4,B@8 look=1:B3 look=1:B0", "known/no-rollback"})
+	// a stored head changed by another party to something the long-lived client cannot merge, a failed flush, then
+	// FURTHER advances of that client while the file still holds those bytes (util_c13foreign.go; last, so that the
+	// random stream of the classes above is unchanged)
+	nFind := func() int {
+		k := 0
+		for t, v := range g.st.OracleTags {
+			if strings.HasPrefix(t, "finding/") {
+				k += v
+			}
+		}
+		return k
+	}
+	before := nFind()
+	for _, c := range c13ForeignHeadCases(g.Rand, false) {
+		c13Judge(g, c)
+	}
+	g.st.OracleTags["foreign-class-findings"] = nFind() - before // none of them may be the recorded known finding: 0 on a correct client
+	// the fork enumeration with every lookup response carrying a head in the forward-compatible encoding (additional text
+	// lines after the hash, util_c13headext.go)
+	for _, c := range c13HeadExtCases(g.Rand) {
+		c13Judge(g, c)
+	}
 }
 
 func c13Gen(g *Gen, n int) {
 	c13GenTraces(g, n)
+	c13GenForeignTraces(g, n)
 }
 
 // c13GenTraces is replaced in c14.go's trace machinery once the Lean machine exists.
